@@ -131,9 +131,6 @@ def rule_flush(ctx, R):
         for eb, t in execs:
             ok = bool(fl) and not any(reaches_without(cfg, cfg.succ[eb], rb, cut_blocks=fl) for rb in reads)
             R.check(ok, "flush:%s" % b.lname(w), "every path from an executed command back to the prompt flushes the %s writer (the `?` error exit leaves the loop)" % b.lname(w), t["span"]["at"])
-        # the writers are created per line (inside the loop): output of one line cannot appear under another
-        ds = vars_.defs.get(w, [])
-        R.check(len(ds) == 1 and not reaches_without(cfg, [0], ds[0][1], cut_blocks=reads), "flush:per_line:%s" % b.lname(w), "the %s writer is created anew for every entered line" % b.lname(w))
 
 
 RULES = [
